@@ -71,6 +71,12 @@ type Shape struct {
 	// PosFilter (xml; set by C17 only, never drawn): the FINAL_OUTPUT xpath ends in the positional predicate
 	// [position() <= 1000000] (true for every candidate) instead of the value filter.
 	PosFilter bool `json:"pos_filter,omitempty"`
+	// XMLMixed (xml, not grouped): the target records do not all carry the same element name (rec / itm, by the byte length of
+	// the first value) and the FINAL_OUTPUT xpath ends in the wildcard step * instead of the name.
+	XMLMixed bool `json:"xml_mixed,omitempty"`
+	// FlatGroup (csv2 / fixedlength2): the record declarations are wrapped in one group, repeatable without bound, whose first
+	// member is the target record.
+	FlatGroup bool `json:"flat_group,omitempty"`
 	// XMLAttr (xml, pass-through transform, >= 2 columns, last column not the int column): the LAST column is not written as
 	// an element but as attribute a of the (text-only) element c0, <c0 a="...">text</c0>, and read with the xpath c0/@a.
 	XMLAttr bool `json:"xml_attr,omitempty"`
@@ -241,6 +247,12 @@ func DrawShape(t *rapid.T, o ShapeOpts) Shape {
 	if s.Format == "xml" && s.Xform == 0 && s.NCols >= 2 && s.IntCol != s.NCols-1 {
 		s.XMLAttr = rapid.IntRange(0, 3).Draw(t, "xmlAttr") == 0
 	}
+	if s.Format == "csv2" || s.Format == "fixedlength2" {
+		s.FlatGroup = rapid.IntRange(0, 3).Draw(t, "flatGroup") == 0
+	}
+	if s.Format == "xml" && !s.Grouped {
+		s.XMLMixed = rapid.IntRange(0, 3).Draw(t, "xmlMixed") == 0
+	}
 	return s
 }
 
@@ -299,6 +311,14 @@ func DrawValue(t *rapid.T, s Shape, label string, width int, o ValueOpts) string
 	}
 	if width > 0 && maxLen > width {
 		maxLen = width
+	}
+	// now and then a value that looks like an escape sequence or markup of some OTHER layer (JSON escapes written out as
+	// text, entity references, format verbs): it must travel as the literal text it is
+	if rapid.IntRange(0, 11).Draw(t, label+"tok") == 0 {
+		tok := rapid.SampledFrom([]string{`\u0026`, `a\u003cb`, `\u003e`, `\n`, `\"`, "&amp;", "&#65;", "%s", "%!d(x)", "null", "{{x}}", `\\`}).Draw(t, label+"token")
+		if (width == 0 || len(tok) <= width) && len(tok) <= maxLen+4 {
+			return tok
+		}
 	}
 	n := rapid.IntRange(0, maxLen).Draw(t, label+"len")
 	rs := make([]rune, n)
@@ -444,6 +464,9 @@ func (s Shape) finalOutputXPath() string {
 		if s.PosFilter {
 			return base + "/rec[position() <= 1000000]"
 		}
+		if s.XMLMixed {
+			return base + "/*" + filter
+		}
 		return base + "/rec" + filter
 	default:
 		if filter == "" {
@@ -568,6 +591,10 @@ func (s Shape) transformDecls() obj {
 		fields["uni"] = obj{"array": []interface{}{obj{"xpath": "c0 | " + last + " | c0"}}}
 		// copy of a node that outlives the record (its content changes from record to record)
 		fields["anccopy"] = obj{"xpath": "..", "custom_func": obj{"name": "copy"}}
+		// one template referenced from two places that differ in the reference-site xpath_dynamic only
+		fields["td1"] = obj{"xpath_dynamic": obj{"const": "c0"}, "template": "tplv"}
+		fields["td2"] = obj{"xpath_dynamic": obj{"const": last}, "template": "tplv"}
+		decls["tplv"] = obj{"object": obj{"v": obj{"xpath": "."}}}
 		fields["ie_a"] = twin(true)
 		fields["ie_b"] = twin(false)
 		fields["pjs"] = obj{"xpath": "..", "custom_func": obj{"name": "javascript_with_context", "args": []interface{}{
@@ -786,6 +813,19 @@ func (s Shape) SchemaWith(transformDecls map[string]interface{}) string {
 	}
 	doc := obj{"parser_settings": ps, "transform_declarations": transformDecls}
 	if fd := s.fileDecl(); fd != nil {
+		if s.FlatGroup {
+			// all declarations become the members of one repeatable group (max omitted = unbounded)
+			switch s.Format {
+			case "csv2":
+				if recs, ok := fd["records"]; ok {
+					fd["records"] = []interface{}{obj{"name": "GRP", "type": "record_group", "child_records": recs}}
+				}
+			case "fixedlength2":
+				if envs, ok := fd["envelopes"]; ok {
+					fd["envelopes"] = []interface{}{obj{"name": "GRP", "type": "envelope_group", "child_envelopes": envs}}
+				}
+			}
+		}
 		doc["file_declaration"] = fd
 	}
 	b, err := json.Marshal(doc)
@@ -1115,6 +1155,10 @@ func (s Shape) RenderParts(recs []Rec) (pro string, parts []string, epi string) 
 		for _, r := range recs {
 			var b strings.Builder
 			recNS := ""
+			recName := "rec"
+			if s.XMLMixed && !s.Grouped && !s.PosFilter && len(r.Vals) > 0 && len(r.Vals[0])%2 == 1 {
+				recName = "itm"
+			}
 			// (a function of the record, not of its position: C10 permutes and splits record lists)
 			if len(r.Vals) > 0 && len(r.Vals[0])%2 == 0 {
 				switch s.XMLNS {
@@ -1132,9 +1176,9 @@ func (s Shape) RenderParts(recs []Rec) (pro string, parts []string, epi string) 
 				if strings.HasPrefix(r.Vals[0], s.SkipToken()) {
 					k = "SK'P"
 				}
-				b.WriteString(`<rec` + recNS + ` k="` + k + `">`)
+				b.WriteString(`<` + recName + recNS + ` k="` + k + `">`)
 			} else {
-				b.WriteString("<rec" + recNS + ">")
+				b.WriteString("<" + recName + recNS + ">")
 			}
 			for j, v := range r.Vals {
 				if s.attrCol(j) {
@@ -1156,7 +1200,7 @@ func (s Shape) RenderParts(recs []Rec) (pro string, parts []string, epi string) 
 				}
 				b.WriteString("</sub>")
 			}
-			b.WriteString("</rec>")
+			b.WriteString("</" + recName + ">")
 			if s.Grouped {
 				grp := "A"
 				if s.Filter && s.IntCol != 0 && strings.HasPrefix(r.Vals[0], s.SkipToken()) {
